@@ -28,11 +28,17 @@ NestedRes(c, op) ==
   ELSE IF op[1] = "add" THEN (IF st'[NextNew(Cur)] = "outstanding" THEN 1 ELSE 0)
   ELSE 0
 
+(* ... and from inside the body of a retrieve_cache handler that was matched with identity i (already released) *)
+HNestedRes(i, op) ==
+  IF op[1] = "pop" THEN (IF op[2] = i THEN 0 ELSE table[op[2]])
+  ELSE IF op[1] = "add" THEN (IF st'[NextNew(Cur)] = "outstanding" THEN 1 ELSE 0)
+  ELSE 0
+
 (* the statement is silent about futures and callbacks of requests dropped by clear(): any outcome, at most one call *)
 ObsOk(e) == /\ \A i \in Idents : table'[i] = e.table[i]
             /\ \A c \in 1..Tr.n :
                  IF st'[c] = "cleared" THEN e.nT[c] <= 1
-                 ELSE nT'[c] = e.nT[c] /\ fut'[c] = e.fut[c]
+                 ELSE nT'[c] = e.nT[c] /\ fut'[c] = e.fut[c] /\ nC'[c] = e.nC[c]
 
 Stutter == UNCHANGED vars
 
@@ -40,6 +46,9 @@ Step(e) ==
   CASE e.op = "add"      -> Add(e.c, e.d) /\ e.res = (IF st'[e.c] = "outstanding" THEN 1 ELSE 0)
     [] e.op = "readd"    -> ReAdd(e.c, e.d) /\ e.res = (IF st'[e.c] = "outstanding" THEN 1 ELSE 0)
     [] e.op = "pop"      -> Pop(e.i) /\ e.res = table[e.i]
+    [] e.op = "resp"     -> Respond(e.i, e.hk, e.ha) /\ e.res = table[e.i] /\ e.nres = HNestedRes(e.i, <<e.hk, e.ha>>)
+    [] e.op = "respco"   -> RespondCo(e.i) /\ e.res = table[e.i]
+    [] e.op = "hbody"    -> HandlerBody(Op(e)[1], Op(e)[2]) /\ e.c = hpend /\ e.nres = NestedRes(0, Op(e))
     [] e.op = "step"     -> IF e.old THEN zombie[e.c] /\ Stutter
                             ELSE \/ TaskStart(e.c, Op(e)[1], Op(e)[2]) /\ e.nres = NestedRes(e.c, Op(e))
                                  \/ TaskWake(e.c, Op(e)[1], Op(e)[2]) /\ e.nres = NestedRes(e.c, Op(e))
